@@ -22,7 +22,7 @@ NOTES = {
  'C16-c': 'missed at first: stop() was only injected while the victim bus was idle or alone -> rich stop scenarios (`stop_enum` variant with >=2 buses, backlog on the victim, an inline awaiter on another bus, stop at every step k)',
  'C18-c': 'missed at first: generated timeouts were all positive -> timeout 0 / 0.0 included in `expect` and `expect_enum`',
  'C20-c': 'missed at first: (1) run_in_executor/to_thread had no simulated counterpart (real threads forbidden) -> thread hop modelled as a deferred call after 1 ms, (2) simulated time.time() started at 0 so the "every 5 s" overload check never ran -> epoch-like base, (3) no cancellation right after arrival -> `cancel_at` = arrival + epsilon',
- 'C15-d': 'fourth round (after the second repair round). Missed at first: the liveness clause allowed 5 virtual seconds between "bus idle" and the return -> 0.5 s plus the injected stall / CPU-burn time; "idle" now also accounts for events of the bus\'s history that another bus is still processing',
+ 'C15-d': 'fourth round (after the second repair round). Missed at first: the liveness clause allowed 5 virtual seconds between "bus idle" and the return -> 0.5 s plus the injected stall / CPU-burn time; "idle" now also accounts for events of the bus\'s history that another bus is still processing; profile `idle_gap` (dispatch, pause, await, long pause on two buses with callers waiting for idleness) makes the takeover-then-keep-running pattern frequent',
  'C15-a': 'detected before the second repair round through a run loop killed by a handler\'s CancelledError (F23); with F23 repaired nothing killed a run loop any more and the seed was missed -> `cancel_runloop` fault (the bus task cancelled from outside while the program goes on) in `idle_dead_loop`; that fault kind then exposed the orphaned queue getter in the unchanged tree (F25, fixed). demo.py relies on F23: confirmed by replay instead',
  'C08-b': 'detected before the second repair round through a forwarded child (F4 mechanism); with F4 repaired it was missed -> `spawn_dispatch` op / `late_child` profile (a background task started by a handler dispatches a child after the handler\'s event has completed). demo.py encodes the F4 behaviour (deadlocks on the repaired tree): confirmed by replay instead',
  'C05-b': 'demo.py invalidated by the F1/F14 repair (its scenario now shows known finding F0 without the patch too): confirmed by replay instead',
